@@ -2,4 +2,4 @@ From Coq Require Import Extraction ExtrOcamlBasic.
 From TK Require Import Mat_Sums Mat_Core Mat_Qc Lle_Model Lle_Spec Lle_Exec.
 Extraction "c08_model.ml" c08_lle_run c08_ltsa_run c08_hlle_run c08_dense c08_local_gram
   c08_eig_contract_b c08_embedding_verdict c08_matrix_verdict c08_mof c08_vof c08_nbrs_of c08_k_of
-  c08_hlle_degenerate Qcanon.Q2Qc hlle_first_oob hlle_ncols.
+  Qcanon.Q2Qc hlle_first_oob hlle_ncols.
